@@ -19,7 +19,7 @@ MANIFEST_ENTRY = {
 }
 
 
-def tasks(tier, seed):
+def _tasks_core(tier, seed):
     return [
         *[func(q) for q in GETTER_TASKS],
         func("bt.backtest.Backtest.run"),
@@ -48,3 +48,14 @@ def replay(o):
     from pyvc.concrete import replay_scenario
 
     return replay_scenario(o)
+
+
+# functions under contract elsewhere whose obligations carry this property's tag as well (found by tools/tagaudit.py): run here too, so that a change
+# which breaks one of them is reported by this check and not only by a neighbour
+def tasks(tier, seed):
+    return _tasks_core(tier, seed) + [
+        func("bt.algos.Rebalance.__call__"),
+        func("bt.core.StrategyBase.close"),
+        func("bt.core.StrategyBase.rebalance"),
+        func("bt.core.StrategyBase.universe"),
+    ]
